@@ -29,13 +29,19 @@ Inductive shape :=
    written, so the result is compared up to that flag. *)
 Definition parse_slice (start : option nat) (ts : list tok) : option shape :=
   match ts with
+  | TColonColon :: r =>                        (* `::` = no end, optional step *)
+      match r with
+      | [] => Some (Slice start None None true)
+      | TExpr n :: [] => Some (Slice start None (Some n) true)
+      | _ => None
+      end
   | TColon :: r =>
       let '(stop, r1) := match r with
                          | TExpr n :: r' => (Some n, r')
                          | _ => (None, r)
                          end in
       match r, r1 with
-      | TColonColon :: _, _ => None          (* `check(Colon)` fails on `::`, expression() fails *)
+      | TColonColon :: _, _ => None
       | _, [] => Some (Slice start stop None false)
       | _, TColon :: [] => Some (Slice start stop None true)
       | _, TColon :: TExpr n :: [] => Some (Slice start stop (Some n) true)
@@ -46,10 +52,10 @@ Definition parse_slice (start : option nat) (ts : list tok) : option shape :=
 
 Definition parse_index (ts : list tok) : option shape :=
   match ts with
-  | TColon :: _ => parse_slice None ts
+  | TColon :: _ | TColonColon :: _ => parse_slice None ts
   | [] => None                                (* "Empty index is not allowed" *)
   | TExpr n :: [] => Some (Index n)
-  | TExpr n :: (TColon :: _) as r => parse_slice (Some n) r
+  | TExpr n :: ((TColon :: _) as r) | TExpr n :: ((TColonColon :: _) as r) => parse_slice (Some n) r
   | _ => None
   end.
 
@@ -75,10 +81,6 @@ Definition wf (sh : shape) : bool :=
 Definition erase (sh : shape) : shape :=
   match sh with Slice a b s _ => Slice a b s false | i => i end.
 
-(* the class of the known finding colon-colon: the canonical spelling has two adjacent colons *)
-Definition adjacent_colons (sh : shape) : bool :=
-  match sh with Slice _ None _ true => true | _ => false end.
-
 Lemma spaced_spelling_parses sh :
   wf sh = true -> option_map erase (parse_index (lex (spell true sh))) = Some (erase sh).
 Proof.
@@ -86,14 +88,7 @@ Proof.
 Qed.
 
 Lemma canonical_spelling_parses sh :
-  wf sh = true -> adjacent_colons sh = false ->
-  option_map erase (parse_index (lex (spell false sh))) = Some (erase sh).
+  wf sh = true -> option_map erase (parse_index (lex (spell false sh))) = Some (erase sh).
 Proof.
-  destruct sh as [i|[a|] [b|] [s|] [|]]; cbn; intros H H'; try discriminate; reflexivity.
-Qed.
-
-Lemma colon_colon_refuted sh :
-  wf sh = true -> adjacent_colons sh = true -> parse_index (lex (spell false sh)) = None.
-Proof.
-  destruct sh as [i|[a|] [b|] [s|] [|]]; cbn; intros H H'; try discriminate; reflexivity.
+  destruct sh as [i|[a|] [b|] [s|] [|]]; cbn; intros H; try discriminate; reflexivity.
 Qed.
